@@ -120,9 +120,9 @@ def gen_ops(rng, re, n_ops, allow_float_lhs=True):
                     if abs(x) > 0.05 and abs(x) < 20:
                         op, val = {"op": name, "a": a, "n": n}, x ** n
                 elif kind == 7:
-                    c = rng.pick([0.5, 1.5, 2.0, 2.5, -1.5, 3.0, 0.0, 1.0])
-                    name = rng.pick(["powf", "pow_f"])
-                    if 0.05 < x < 20:
+                    c = rng.pick([0.5, 1.5, 2.0, 2.5, -1.5, 3.0, 0.0, 1.0, 4.0, 5.0, 6.0, 7.0, 9.0, 10.0, 12.0, 33.0, -2.0, -3.0, -7.0, 6.5])
+                    name = rng.pick(["powf", "pow_f", "pow_f"])
+                    if 0.05 < x < 20 and abs(c * math.log(x)) < 12:
                         op, val = {"op": name, "a": a, "c": c}, x ** c
                 elif kind == 8:
                     b = rng.below(len(re))
@@ -146,6 +146,44 @@ def gen_ops(rng, re, n_ops, allow_float_lhs=True):
         else:
             ops.append({"op": "add_f", "a": 0, "c": 1.0})
             re.append(re[0] + 1.0)
+    return ops
+
+
+def composite_tail(rng, re, n_vars):
+    """r = f(u) * g(v) (+ h(u * v)) with u, v dense combinations of all variables: every factor carries a dense
+    gradient and a second-derivative part, which is what makes Hessians and mixed parts non-trivial (and, in
+    floating point, not bitwise symmetric)"""
+    ops = []
+
+    def emit_op(op, val):
+        ops.append(op)
+        re.append(val)
+        return len(re) - 1
+
+    def dense(kind):
+        acc = 0
+        for i in range(1, n_vars):
+            if kind == "sum":
+                c = rng.pick([0.5, 1.5, -0.75, 2.0])
+                t = emit_op({"op": "mul_f", "a": i, "c": c}, re[i] * c)
+                acc = emit_op({"op": "add", "a": acc, "b": t}, re[acc] + re[t])
+            else:
+                acc = emit_op({"op": "mul", "a": acc, "b": i}, re[acc] * re[i]) if i % 2 else emit_op({"op": "add", "a": acc, "b": i}, re[acc] + re[i])
+        return acc
+
+    u, v = dense("sum"), dense("prod")
+    safe = ["sin", "cos", "tanh", "arctan", "arcsinh"]
+    fu = rng.pick(safe)
+    a = emit_op({"op": fu, "a": u}, UNARY[fu][0](re[u]))
+    if abs(re[v]) < 6:
+        b = emit_op({"op": "exp", "a": v}, math.exp(re[v]))
+    else:
+        b = emit_op({"op": "arctan", "a": v}, math.atan(re[v]))
+    r = emit_op({"op": "mul", "a": a, "b": b}, re[a] * re[b])
+    if rng.below(2):
+        w = emit_op({"op": "mul", "a": u, "b": v}, re[u] * re[v])
+        h = emit_op({"op": "tanh", "a": w}, math.tanh(re[w]))
+        r = emit_op({"op": "add", "a": r, "b": h}, re[r] + re[h])
     return ops
 
 
@@ -228,6 +266,11 @@ def emit(seed, tier, with_numpy=False):
         for cname, parts in (("Dual64", [1.0, 0.5]), ("Dual2_64", [1.0, 0.0, 0.25]), ("HyperDual64", [1.0, 0.5, 0.0, 0.125]), ("Dual3_64", [1.0, 0.0, 0.0, 2.0])):
             jobs.append({"kind": "scalar", "class": cname, "inputs": [[fbits(v) for v in parts]],
                          "ops": [{"op": "pow_bigint", "a": 0, "n_str": str(n), "c": fbits(float(n))}]})
+    for cname, parts in (("Dual64", [1.0009765625, 0.5]), ("Dual2_64", [1.0009765625, 0.5, -0.25]), ("Dual3_64", [1.0009765625, 0.5, 0.25, 1.0]),
+                         ("HyperDual64", [0.9990234375, 0.5, 2.0, 0.125]), ("HyperHyperDual64", [1.0009765625, 0.5, 1.0, 2.0, 0.0, 0.25, 0.0, 1.0])):
+        for c in (6.0, 7.0, 12.0, 33.0, 1024.0, 2000.0, -2000.0, -5.0):
+            for name in ("pow_f", "powf"):
+                jobs.append({"kind": "scalar", "class": cname, "inputs": [[fbits(v) for v in parts]], "ops": bitsify([{"op": name, "a": 0, "c": c}])})
     reps = 3 if tier == "quick" else 20
     for _ in range(reps):
         for drv, nin in (("first_derivative", 1), ("second_derivative", 1), ("third_derivative", 1), ("second_partial_derivative", 2), ("third_partial_derivative", 3)):
@@ -242,10 +285,13 @@ def emit(seed, tier, with_numpy=False):
                 x = point(rng, n)
                 re = list(x)
                 ops = gen_ops(rng, re, n + 2 + rng.below(8))
-                # make sure every variable is used: fold all inputs into a final sum of products
-                for i in range(n):
-                    ops.append({"op": "mul", "a": len(re) - 1, "b": i} if i % 3 == 0 else {"op": "add", "a": len(re) - 1, "b": i})
-                    re.append(0.0)
+                if rng.below(2):
+                    # make sure every variable is used: fold all inputs into a final sum of products
+                    for i in range(n):
+                        ops.append({"op": "mul", "a": len(re) - 1, "b": i} if i % 3 == 0 else {"op": "add", "a": len(re) - 1, "b": i})
+                        re.append(0.0)
+                else:
+                    ops += composite_tail(rng, re, n)
                 job = {"kind": "driver", "driver": drv, "x": [fbits(v) for v in x], "ops": bitsify(ops)}
                 if drv == "jacobian":
                     nreg = n + len(ops)
@@ -257,9 +303,12 @@ def emit(seed, tier, with_numpy=False):
             x, y = point(rng, m), point(rng, n)
             re = list(x) + list(y)
             ops = gen_ops(rng, re, 3 + rng.below(6))
-            for i in range(m + n):
-                ops.append({"op": "mul", "a": len(re) - 1, "b": i} if i % 2 == 0 else {"op": "add", "a": len(re) - 1, "b": i})
-                re.append(0.0)
+            if rng.below(2):
+                for i in range(m + n):
+                    ops.append({"op": "mul", "a": len(re) - 1, "b": i} if i % 2 == 0 else {"op": "add", "a": len(re) - 1, "b": i})
+                    re.append(0.0)
+            else:
+                ops += composite_tail(rng, re, m + n)
             jobs.append({"kind": "driver", "driver": "partial_hessian", "x": [fbits(v) for v in x], "y": [fbits(v) for v in y], "ops": bitsify(ops)})
     return jobs
 
